@@ -1,5 +1,6 @@
 SPECIFICATION Spec
-CONSTANT Mutant = "none"
+CONSTANTS Mutant = "none"
+  Full = FALSE
 INVARIANTS InvTypes InvSignature InvUnsigned InvAlgKey InvAlgAllowed InvIssuer InvAudience InvScopes InvValidity InvKidUnique InvMerge InvRefines InvVerdict
 PROPERTY Terminates
 CHECK_DEADLOCK FALSE
